@@ -79,13 +79,27 @@ STATEMENTS = {
     "with open(<file parameter>, …) as f: body": "body; csv.reader(f, delimiter=',') = the hidden parameter rows'",
     "try: <pure helper calls>; <**kwargs>.setdefault(…) except: pass (results read nowhere else)": "left out, named in header",
     "os.path.isfile(…) etc. in TARGETS.static_calls": "constant of the specialisation; dead branch named in the header",
+    "f(args…) where f is the function itself (TARGETS.recursive, a procedure on its inout lists)":
+        "the same definition with the remaining fuel; `match fuel with | 0 => outOfFuel | fuel + 1 => body`",
+    "s + t, len(s) (str)": "String append, String.length",
+    "v.west etc. on a namedtuple returned by an opaque call (TARGETS.tuple_attrs)": "tuple projection",
+    "numpy.logical_and / logical_or (list bool), numpy.size": "List.zipWith (&&) / (||), Py.size",
+    "a[i, j, k] = v (a : n-d array)": "PySM.NdArr.setAt a [i, j, k] v",
+    "if A and B: (an operation that can raise inside B)": "if A: if B: (else branch duplicated)",
+    "TARGETS.body_from = 'for' with TARGETS.live_in": "the function from its first top-level loop on; live-in variables are parameters",
 }
 MUTATING_METHODS = ("fill", "append")
+
+
+def NDARR(t):
+    return Ty("ndarr", item=t)
 
 
 def lty(t):
     """Lean type of a Ty (superset of Ty.lean)"""
     k = t.kind
+    if k == "ndarr":
+        return f"PySM.NdArr {P._paren(lty(t.item))}"
     if k == "opt":
         return f"Option {P._paren(lty(t.item))}"
     if k == "rec":
@@ -284,6 +298,14 @@ class FnSM(P.Fn):
             if m is not None and any(dotted(d) == "property" for d in m.decorator_list):
                 return self.inline_method(m, e, env)
             self.bad(e, f"{k} is neither a declared field of the state record nor a property with a single-expression body")
+        ta = self.spec.get("tuple_attrs", {})
+        if e.attr in ta and not (isinstance(e.value, ast.Name) and e.value.id == "self"):
+            n0 = len(self.pending)
+            v = self.expr(e.value, env)
+            if v.ty.kind == "tuple" and ta[e.attr] < len(v.ty.item):
+                i, n = ta[e.attr], len(v.ty.item)
+                return Val(v.code + "".join([".2"] * i) + (".1" if i < n - 1 else ""), v.ty.item[i])
+            del self.pending[n0:]
         return super().e_Attribute(e, env)
 
     # ---- accessor methods of the same class are inlined
@@ -331,7 +353,17 @@ class FnSM(P.Fn):
             return Val(f"(if {self.to_bool(c, node)} then {a.code} else {b.code})", a.ty)
         self.bad(node, f"method {m.name} is not a single-expression accessor: not inlined")
 
+    def str_code(self, v):
+        return v.code if v.code is not None else _strlit(v.static)
+
     def e_BinOp(self, e, env):
+        if isinstance(e.op, ast.Add):
+            a, b = self.expr(e.left, env), self.expr(e.right, env)
+            if a.ty.kind == "str" and b.ty.kind == "str":
+                if a.is_static and b.is_static:
+                    return Val(None, STR, static=a.static + b.static)
+                return Val(f"({self.str_code(a)} ++ {self.str_code(b)})", STR)       # str + str: concatenation
+            return self.lifted(e.op, a, b, e)
         if isinstance(e.op, ast.Pow):
             a, b = self.expr(e.left, env), self.expr(e.right, env)
             if "f64" in (a.ty.kind, b.ty.kind) and {a.ty.kind, b.ty.kind} <= {"f64", "int", "nat"}:
@@ -499,6 +531,28 @@ class FnSM(P.Fn):
             if m is None:
                 self.bad(e, f"method self.{e.func.attr} not found in the class")
             return self.inline_method(m, e, env)
+        if fn == "len" and len(args) == 1 and not kw:
+            v = self.expr(args[0], env)
+            if v.ty.kind == "str":
+                if v.is_static:
+                    return Val(f"({len(v.static)} : Int)", INT, lit=len(v.static))
+                return Val(f"((String.length {v.code} : Nat) : Int)", INT)
+            if v.ty.kind == "list":
+                return Val(f"(Py.size {v.code})", INT)
+            self.bad(e, f"len of {v.ty}")
+        if np_("logical_and", "logical_or") and len(args) == 2 and not kw:
+            a, b = self.expr(args[0], env), self.expr(args[1], env)
+            op = "&&" if fn.endswith("and") else "||"
+            if a.ty == LIST(BOOL) and b.ty == LIST(BOOL):
+                return Val(f"(List.zipWith (fun x_ y_ => x_ {op} y_) {a.code} {b.code})", LIST(BOOL))
+            if a.ty.kind == "bool" and b.ty.kind == "bool":
+                return Val(f"({a.code} {op} {b.code})", BOOL)
+            self.bad(e, f"{fn} of {a.ty}, {b.ty}")
+        if np_("size") and len(args) == 1 and not kw:
+            v = self.expr(args[0], env)
+            if v.ty.kind == "list":
+                return Val(f"(Py.size {v.code})", INT)
+            self.bad(e, f"numpy.size of {v.ty}")
         if fn == "zip" and len(args) == 2 and not kw:
             a, b = self.expr(args[0], env), self.expr(args[1], env)
             if a.ty.kind == "list" and b.ty.kind == "list" and a.ty.item is not None and b.ty.item is not None:
@@ -720,6 +774,22 @@ class FnSM(P.Fn):
                     env2[x.id] = Val(mangle(x.id), v.ty.item[i])
                     out += f"{pad}let {mangle(x.id)} := {proj};\n"
                 return pre + out + self.blk(rest, env2, k, ind, ctx)
+            if isinstance(t, ast.Subscript) and self.key_of(t.value) in env and env[self.key_of(t.value)].ty.kind == "ndarr":
+                key = self.key_of(t.value)
+                self.check_inplace(key, env, s)
+                cur = env[key]
+                if not isinstance(t.slice, ast.Tuple):
+                    self.bad(s, "assignment into an n-d array needs one integer index per axis")
+                ics = []
+                for x in t.slice.elts:
+                    iv = self.expr(x, env)
+                    if iv.ty.kind not in ("int", "nat"):
+                        self.bad(s, f"n-d index of type {iv.ty}")
+                    ics.append(self.to_int(iv, s))
+                newv = self.coerce_sm(v, cur.ty.item, s)
+                tmp = self.fresh("a")
+                self.pending.append((tmp, f"(PySM.NdArr.setAt {cur.code} [{', '.join(ics)}] {newv})"))
+                return self.rebind(key, Val(tmp, cur.ty), env, go, pad, s)
             if isinstance(t, ast.Subscript):
                 key = self.key_of(t.value)
                 self.check_inplace(key, env, s)
@@ -756,6 +826,31 @@ class FnSM(P.Fn):
         if isinstance(s, ast.Expr) and isinstance(s.value, ast.Call):
             c = s.value
             fn = dotted(c.func)
+            if fn == self.node.name and "." not in self.spec["func"] and self.spec.get("recursive"):
+                # the function calls itself (a procedure on its `inout` parameters): the same definition with the fuel that is left
+                ps = [(a, t) for a, t in self.spec["params"].items() if not isinstance(t, dict) and t.kind not in ("none", "unused", "file")]
+                if c.keywords or len(c.args) != len(self.argnames):
+                    self.bad(s, "recursive call with other arguments than the parameters")
+                codes = []
+                for a, node_a in zip(self.argnames, c.args):
+                    t = self.spec["params"][a]
+                    if isinstance(t, dict) or t.kind in ("none", "unused", "file"):
+                        continue
+                    if a in self.spec.get("inout", []):
+                        if self.key_of(node_a) != a:
+                            self.bad(s, f"recursive call must pass the in-place parameter {a} itself")
+                        self.check_inplace(a, env, s)
+                        codes.append(env[a].code)
+                    else:
+                        codes.append(self.coerce_sm(self.expr(node_a, env), t, s))
+                pre0 = self.pre(pad)
+                r = self.fresh("r")
+                names = list(self.extras)
+                tys = {k_: env[k_].ty for k_ in names}
+                lets, env2 = self.unpack(names, tys, r, env, pad)
+                self.used_rec = True
+                call = f"({self.spec['lean']} {{OPAQUE}} fuel " + " ".join(codes) + ")"
+                return pre0 + f"{pad}Except.bind {call} fun {r} =>\n{lets}" + self.blk(rest, env2, k, ind, ctx)
             if fn in ("numpy.add.at", "np.add.at") and len(c.args) == 3 and not c.keywords:
                 key = self.key_of(c.args[0])
                 self.check_inplace(key, env, s)
@@ -853,7 +948,24 @@ class FnSM(P.Fn):
             a = self.blk(list(none_body) + rest, env_n, k, ind + 1, ctx)
             b = self.blk(list(some_body) + rest, env_s, k, ind + 1, ctx)
             return f"{pad}match {env[key].code} with\n{pad}| none =>\n{a}\n{pad}| some {self.lname(key)} =>\n{b}"
-        c = self.expr(s.test, env)
+        save0 = (self.tmp, list(self.pending), dict(env))
+        try:
+            c = self.expr(s.test, env)
+        except Untranslatable as ex:
+            if "evaluation order" in ex.reason and isinstance(s.test, ast.BoolOp) and isinstance(s.test.op, ast.And):
+                # `if A and B:` with an operation that can raise in B: the nested ifs (B evaluated only when A holds)
+                self.tmp, self.pending = save0[0], save0[1]
+                env.clear(), env.update(save0[2])
+                vals = s.test.values
+                inner_test = vals[1] if len(vals) == 2 else ast.BoolOp(op=ast.And(), values=vals[1:])
+                ast.copy_location(inner_test, s.test)
+                inner = ast.If(test=inner_test, body=s.body, orelse=s.orelse)
+                outer = ast.If(test=vals[0], body=[inner], orelse=s.orelse)
+                for n_ in (inner, outer):
+                    ast.copy_location(n_, s)
+                    n_.end_lineno = getattr(s, "end_lineno", s.lineno)
+                return self.s_if(outer, rest, env, k, ind, ctx)
+            raise
         pre = self.pre(pad)
         if c.is_static:
             live, dead = (s.body, s.orelse) if c.static else (s.orelse, s.body)
@@ -1013,6 +1125,10 @@ class FnSM(P.Fn):
             self.bad(node, "*args / keyword-only parameters")
         if node.args.kwarg and node.args.kwarg.arg not in spec.get("kwargs_passthrough", []):
             self.bad(node, "**kwargs that is not declared a pass-through")
+        self.argnames = argnames
+        self.used_rec = False
+        if spec.get("recursive"):
+            self.fuels.append("fuel")
         is_method = bool(argnames) and argnames[0] in ("self",) and "self_fields" in spec
         if is_method:
             argnames = argnames[1:]
@@ -1069,16 +1185,36 @@ class FnSM(P.Fn):
         def k_end(env_end):
             if self.is_gen:
                 return "  " + self.final(env_end["out'"].code, env_end, node)
-            if is_method or spec.get("procedure"):
+            if self.self_assigned or spec.get("procedure"):
                 self.ret_check(Ty("unit"), node)
                 return "  " + self.final(None, env_end, node)
             self.bad(node, "control reaches the end of the function without return")
         # extras that are known only after the body (self, rng) are appended by `final` through self.extras: fix the list first
-        if is_method:
+        self.self_assigned = is_method and any(
+            (k_ or "").startswith("self.") for k_ in self.assigned_sm(list(node.body)))
+        if self.self_assigned:
             self.extras.append("self''")
         if uses_rng:
             self.extras.append("rng'")
-        code = self.blk(list(node.body), env, k_end, 1, Ctx("fn"))
+        body_stmts = list(node.body)
+        live_params = []
+        if spec.get("body_from") == "for":
+            pos = next((i_ for i_, s_ in enumerate(body_stmts) if isinstance(s_, ast.For)), None)
+            if pos is None:
+                self.bad(node, "TARGETS.body_from = 'for', but the function has no top-level for loop")
+            for s_ in body_stmts[:pos]:
+                if not (isinstance(s_, ast.Expr) and isinstance(s_.value, ast.Constant)):
+                    self.note(f"line {s_.lineno}: before the loop, not part of the definition: "
+                              f"{ast.unparse(s_).splitlines()[0][:70]}")
+            assigned_before = set(self.assigned_sm(body_stmts[:pos]))
+            for nm, t in spec.get("live_in", {}).items():
+                if nm not in assigned_before:
+                    self.bad(node, f"live-in variable {nm} is not assigned before the loop")
+                env[nm] = Val(mangle(nm), t)
+                live_params.append((mangle(nm), t))
+            body_stmts = body_stmts[pos:]
+        code = self.blk(body_stmts, env, k_end, 1, Ctx("fn"))
+        lean_params = lean_params + live_params
         if self.pending:
             self.bad(node, "internal: unflushed effects")
         comps = []
@@ -1136,10 +1272,18 @@ class FnSM(P.Fn):
             res_doc = comps_doc
         head.append("    result: " + ", ".join(res_doc))
         if self.fuels:
-            head.append("    fuel: one parameter per `while` loop; `Exc.outOfFuel` when it runs out")
+            head.append("    fuel: one parameter per `while` loop / for the recursion; `Exc.outOfFuel` when it runs out")
         for n in self.notes:
             head.append("    " + n)
         head.append("-/")
+        opq_names = " ".join(o["lean"] for k_, o in spec.get("opaque", {}).items() if k_ in self.used_opaque and
+                             o["lean"] in seen) if False else " ".join(dict.fromkeys(
+                                 o["lean"] for k_, o in spec.get("opaque", {}).items() if k_ in self.used_opaque))
+        code = code.replace(" {OPAQUE} ", " " + (opq_names + " " if opq_names else ""))
+        if spec.get("recursive"):
+            head.insert(-1, "    recursion: the function calls itself; `fuel` bounds the depth (`Exc.outOfFuel` at 0)")
+            code = ("  match fuel with\n  | 0 => Except.error PySM.Exc.outOfFuel\n  | fuel + 1 =>\n" +
+                    "\n".join("  " + l for l in code.split("\n")))
         text = "\n".join(head) + f"\ndef {spec['lean']} {sig} : PySM.M {P._paren(rt)} :=\n{code}\n"
         hs = getattr(node, "_opaque_hashes", None)
         if hs:
@@ -1241,6 +1385,24 @@ TARGETS = [
                  "read_catalog_line": dict(lean="read_catalog_line", args=[REC("Line")], ret=TUPLE(EV, INT), raises=True),
                  "cls": dict(lean="cls", args=[], kwparams={"data": LIST(EV), "catalog_id": OPT(INT)}, kwargs=["**"],
                              ret=REC("Cat"))}),
+    # C17: the recursive four-way split of the quadtree grids. `mercantile` is opaque (`quadkey_to_tile`, `bounds` = the
+    # namedtuple (west, south, east, north)); quadkeys are Python strings; `qk` / `num` are the lists the callers pass and the
+    # recursion appends to in place; the recursion depth is bounded by an explicit fuel.
+    dict(file="csep/core/regions.py", func="_create_tile", lean="create_tile", prop="C17", also=[], recursive=True,
+         procedure=True, params=dict(quadk=STR, threshold=INT, zoom=INT, lon=LIST(F64), lat=LIST(F64), qk=LIST(STR),
+                                     num=LIST(INT)), inout=["qk", "num"],
+         tuple_attrs=dict(west=0, south=1, east=2, north=3),
+         opaque={"mercantile.quadkey_to_tile": dict(lean="quadkey_to_tile", args=[STR], ret=REC("Tile")),
+                 "mercantile.bounds": dict(lean="bounds", args=[REC("Tile")], ret=TUPLE(F64, F64, F64, F64))}),
+    dict(file="csep/core/regions.py", func="_create_tile_fix_len", lean="create_tile_fix_len", prop="C17", also=[],
+         recursive=True, procedure=True, params=dict(quadk=STR, zoom=INT, qk=LIST(STR)), inout=["qk"]),
+    # C01: the build loop of `CartesianGrid2D._build_bitmask_vec` (from its `for` loop on): the n-d array `a`, the bin
+    # indices `idx`, `idy` and the edge arrays `xs`, `ys` computed before the loop are parameters (cleaner_range and
+    # bin1d_vec are tied by py2lean); state record read only: the polygon list (its length) and `poly_mask`.
+    dict(file="csep/core/regions.py", func="CartesianGrid2D._build_bitmask_vec", lean="build_bitmask_loop", prop="C01",
+         also=[], params={}, body_from="for",
+         live_in=dict(a=NDARR(F64), idx=LIST(INT), idy=LIST(INT), xs=LIST(F64), ys=LIST(F64)),
+         self_fields={"polygons": ("polygons", LIST(REC("Poly"))), "poly_mask": ("poly_mask", OPT(LIST(INT)))}),
     # C04: `apply_mct` (method; state record = the structured array `self.catalog`, rows of an opaque type `Row` with the
     # declared columns as opaque projections). Transcendental pieces are opaque parameters, as in the hand model: float
     # power `10 ** x`, the nested `compute_mct` (log10; digest pinned), `days_to_millis` / `millis_to_days` of time_utils.
